@@ -521,6 +521,34 @@ func (sp *jspec) tagString() string {
 	return strings.Join(ts, "+")
 }
 
+// acceptClass names the class of a wrongly rejected valid justification by the most specific feature of the
+// input (triage showed that each of these features alone makes the unchanged tree reject); full tags otherwise.
+func (sp *jspec) acceptClass() string {
+	for _, t := range []string{"header-with-digest", "key-listed-twice", "mixed-heights"} {
+		if sp.tags[t] {
+			return t
+		}
+	}
+	return sp.tagString()
+}
+
+// rejectClass / invariantClass: same idea for the other oracles (a key listed twice is the only feature that
+// made the unchanged tree accept an invalid justification; mixed heights the only one that made the verdict
+// depend on order or width).
+func (sp *jspec) rejectClass() string {
+	if sp.tags["key-listed-twice"] {
+		return "key-listed-twice"
+	}
+	return sp.tagString()
+}
+
+func (sp *jspec) invariantClass() string {
+	if sp.tags["mixed-heights"] {
+		return "mixed-heights"
+	}
+	return sp.tagString()
+}
+
 func (s *jsim) descendantsOf(b int, strict bool) []int {
 	var out []int
 	for i := range s.blocks {
@@ -803,10 +831,10 @@ func (s *jsim) oneJustification(j int) {
 			why  string
 		}{{"service", rs[oi].svc, vS, whyS}, {"generic-u64", rs[oi].g64, vG, whyG}, {"generic-u32", rs[oi].g32, vG, whyG}} {
 			if p.want == mustAccept && !p.got {
-				k.Violate("C19", "valid-rejected/"+p.name, ord+":"+sp.tagString(), "%s path rejects a justification the statement accepts (%s)\n%s", p.name, ord, detail())
+				k.Violate("C19", "valid-rejected/"+p.name, ord+":"+sp.acceptClass(), "%s path rejects a justification the statement accepts (%s; features: %s)\n%s", p.name, ord, sp.tagString(), detail())
 			}
 			if p.want == mustReject && p.got {
-				k.Violate("C19", "invalid-accepted/"+p.name, sp.tagString(), "%s path accepts a justification the statement rejects: %s (%s)\n%s", p.name, p.why, ord, detail())
+				k.Violate("C19", "invalid-accepted/"+p.name, sp.rejectClass(), "%s path accepts a justification the statement rejects: %s (%s; features: %s)\n%s", p.name, p.why, ord, sp.tagString(), detail())
 			}
 		}
 	}
@@ -818,17 +846,17 @@ func (s *jsim) oneJustification(j int) {
 	// and the definition gives no unique GHOST either)
 	for oi := 1; oi < len(orders) && !eqvOverS && !eqvOverG; oi++ {
 		if rs[oi] != rs[0] {
-			k.Violate("C19", "order-invariance", sp.tagString(), "verdict changes with the order of precommits/headers: built order svc=%v u32=%v u64=%v, permutation %d svc=%v u32=%v u64=%v\n%s",
+			k.Violate("C19", "order-invariance", sp.invariantClass(), "verdict changes with the order of precommits/headers: built order svc=%v u32=%v u64=%v, permutation %d svc=%v u32=%v u64=%v\n%s",
 				rs[0].svc, rs[0].g32, rs[0].g64, oi, rs[oi].svc, rs[oi].g32, rs[oi].g64, detail())
 		}
 	}
 	// 3. ... nor on the width of block numbers
 	if rs[0].g32 != rs[0].g64 {
-		k.Violate("C19", "width-invariance", sp.tagString(), "32-bit instantiation %s, 64-bit instantiation %s the same justification\n%s", acc3(rs[0].g32), acc3(rs[0].g64), detail())
+		k.Violate("C19", "width-invariance", sp.invariantClass(), "32-bit instantiation %s, 64-bit instantiation %s the same justification\n%s", acc3(rs[0].g32), acc3(rs[0].g64), detail())
 	}
 	// 4. service path (unit weight per listing) against the generic 32-bit path when the listings are unit weight too
 	if !s.weighted && rs[0].svc != rs[0].g32 {
-		k.Violate("C19", "service-vs-generic", sp.tagString(), "Service.VerifyBlockJustification %s, DecodeGrandpaJustificationVerifyFinalizes[uint32] %s\n%s", acc3(rs[0].svc), acc3(rs[0].g32), detail())
+		k.Violate("C19", "service-vs-generic", sp.invariantClass(), "Service.VerifyBlockJustification %s, DecodeGrandpaJustificationVerifyFinalizes[uint32] %s\n%s", acc3(rs[0].svc), acc3(rs[0].g32), detail())
 	}
 }
 
